@@ -350,6 +350,20 @@ def check_E3(ctx, facts):
             by_piece, splits = bits_abs.reader_by_interpretation(facts, fs, layout)
             reader = [{'field': by_piece.get(i, (None, None, None))[0], 'radix': by_piece.get(i, (None, None, None))[1], 'ty': by_piece.get(i, (None, None, None))[2],
                        'line': fs.line} for i in range(max(by_piece) + 1)]
+            # the reader's range checks: it must refuse exactly what the packer cannot produce (a fraction above the largest
+            # sub-second step, seconds above 32 bits) — an accepted out-of-range field reads back as another time
+            bnds = getattr(bits_abs.reader_by_interpretation, 'bounds', {})
+            piece_of = {v[0]: i for i, v in by_piece.items()}
+            maxf = getattr(ctx, 'c10_max_fraction', None)
+            for fld, want in (('fractional', maxf), ('seconds', (1 << 32) - 1)):
+                if want is None or fld not in piece_of:
+                    continue
+                got = sorted(bnds.get('piece%d' % piece_of[fld], set()))
+                okb = got == [want]
+                ctx.ob('C10.E3', 'reader-range|' + fld, okb, site(fs),
+                       'the reader accepts %s up to %d, the largest value the packer produces' % (fld, want) if okb else
+                       'the reader accepts %s up to %s, but the largest value the packer can produce is %d: a text with a larger field is accepted and denotes a '
+                       'time that no constructor produces (it reads back as a different time / compares out of order)' % (fld, got or 'any value of its integer type', want))
             if len(splits) == 1:
                 nsp, sep = next(iter(splits))
                 ctx.ob('C10.E3', 'split', nsp == len(writer) and sep == 45, site(fs), 'reader splits into %s pieces on %r' % (nsp, chr(sep) if sep else sep))
